@@ -127,7 +127,31 @@ def run_impl(sim, ops):
             others_a = {k: v for k, v in st.items() if k != op[1]}
             if others_a != others_b:
                 bad = ('others', 'step %d %r changed the stored weight of another candidate: %r -> %r' % (i, op, others_b, others_a))
+    if bad is None and obs and 'err' not in obs[-1]:
+        # after the history: max_weight bounds every stored weight (accept probability <= 1), thresholds are one rounding of
+        # weight/max_weight, update_total_weight() has the proved relative accuracy and is never negative
+        st = obs[-1]['w']
+        if st:
+            M = F(ld.max_weight)
+            for k in sorted(st):
+                if st[k] > M:
+                    bad = ('max-bound', 'after the history max_weight %r is below the stored weight %r of candidate %r: accept probability > 1, selection not proportional' % (ld.max_weight, ld.weight[k], k)); break
+                if M > 0:
+                    t = F(ld.weight[k] / ld.max_weight); q = st[k] / M
+                    if not ((1 - EPS) * q <= t <= (1 + EPS) * q):
+                        bad = ('threshold', 'accept threshold %r of candidate %r is not within 1 -+ eps of weight/max_weight (C16f_accept_threshold_relative)' % (ld.weight[k] / ld.max_weight, k)); break
+        if bad is None:
+            ld.update_total_weight()
+            T = F(ld.total_weight()); S = sum(st.values()); m = len(st)
+            if T < 0 or abs(T - S) > gam_ub(m) * S:
+                bad = ('resum', 'update_total_weight() gives %r for stored weights summing to %.17g: outside the proved relative bound gam(%d) (C16f_update_total_weight_relative)' % (ld.total_weight(), float(S), m))
+            naive = 0
+            for k in ld.items: naive = naive + ld.weight[k]          # what sum() computes without compensation (CPython < 3.12): the model's fsum
+            obs.append({'resum': T, 'w': st, 'naive': F(naive)})
     return obs, bad
+
+
+NAIVE_SUM = sum([0.1] * 10) != 1.0      # CPython >= 3.12 compensates float sums: then update_total_weight() is tied by its proved bound only
 
 
 def impl_view(obs):
@@ -137,7 +161,8 @@ def impl_view(obs):
         s = 'S %d' % len(o['w'])
         for k in sorted(o['w']):
             s += ' %d:%s/%s' % (k, o['w'][k].numerator, o['w'][k].denominator)
-        s += ' T %s/%s' % (o['T'].numerator, o['T'].denominator)
+        T = o['naive'] if 'resum' in o else o['T']
+        s += ' T %s/%s' % (T.numerator, T.denominator)
         out.append(s)
     return out
 
@@ -148,10 +173,10 @@ def model_view(mo):
 
 
 def fmt(ops):
-    t = ['LDF', str(len(ops))]
+    t = ['LDF', str(len(ops) + 1)]
     for op in ops:
         t += [op[0], str(op[1])] + ([C.qtok(F(op[2]))] if len(op) > 2 else [])
-    return ' '.join(t)
+    return ' '.join(t + ['S'])          # update_total_weight() as the plain left fold at the end
 
 
 def arith_cases(rng, n):
@@ -200,7 +225,7 @@ def part(run, tier, props=None):
         res.append((obs, bad))
         stats['ops'] += len(ops); stats['styles'][style] = stats['styles'].get(style, 0) + 1
         for o in obs:
-            if 'err' in o: continue
+            if 'err' in o or 'resum' in o: continue
             if not o['w']: stats['emptied_states'] += 1
             if o['T'] != sum(o['w'].values()): stats['nonzero_drift_states'] += 1
             if o['T'] < 0: stats['negative_total_states'] += 1
@@ -221,8 +246,8 @@ def part(run, tier, props=None):
         if 'DRIVERFAIL' in mo or mv != iv:
             d = next((i for i, (a, b) in enumerate(zip(mv, iv)) if a != b), min(len(mv), len(iv)))
             mism.append((len(ops), 'first difference at operation %d: model %r, implementation %r' % (d, mv[d] if d < len(mv) else None, iv[d] if d < len(iv) else None), rp))
-        elif len(samples) < 3 and 4 <= len(ops) <= 12 and any(o.get('T') != sum(o.get('w', {}).values()) for o in obs if 'err' not in o):
-            samples.append({'style': style, 'ops': rp['ops'], 'totals_hex': [o.get('hex') for o in obs]})
+        elif len(samples) < 3 and 4 <= len(ops) <= 12 and any(o.get('T') != sum(o.get('w', {}).values()) for o in obs if 'err' not in o and 'resum' not in o):
+            samples.append({'style': style, 'ops': rp['ops'], 'totals_hex': [o.get('hex') for o in obs if 'resum' not in o]})
     amis = []
     if ok:
         k = 0
@@ -286,7 +311,7 @@ def replay_f(rp):
     ops = [tuple(o[:2]) + ((float.fromhex(o[2]),) if len(o) > 2 else ()) for o in r['ops']]
     obs, bad = run_impl(sim, ops)
     print('history:', [(o[0], o[1]) + ((o[2],) if len(o) > 2 else ()) for o in ops])
-    print('totals:', [o.get('hex', o.get('err')) for o in obs])
+    print('totals:', [o.get('hex', o.get('err')) for o in obs if 'resum' not in o])
     print('verdict of the proved bounds:', bad or 'hold')
     if bad: return 1
     if r.get('broken'):
